@@ -2,6 +2,7 @@ package main
 
 import (
 	"fmt"
+	"strings"
 	"go/token"
 	"go/types"
 	"sort"
@@ -125,6 +126,16 @@ func (fr *Frame) enterLoop(li *loopInfo, head *ssa.BasicBlock) {
 		ex.note("loop %d of %s contains calls with unknown frame: all state havocked at loop head", li.ord, fr.fn.Name())
 	} else {
 		nm := fr.curMem.clone()
+		if assigned["*lib"] {
+			nm = ex.havocLib(nm)
+			delete(assigned, "*lib")
+			delete(assigned, "*mem")
+			for k := range assigned {
+				if _, isModel := ex.S.Models[strings.TrimPrefix(k, "F_")]; !(isModel && ex.S.Models[strings.TrimPrefix(k, "F_")].Ghost) {
+					delete(assigned, k)
+				}
+			}
+		}
 		if assigned["*mem"] {
 			ex.havocGoMemory(nm)
 			delete(assigned, "*mem")
